@@ -37,7 +37,10 @@ def _item(origin, copy, name, set_cls=None):
 def replay_encoding(p):
     from dliswriter.utils.internal.struct_writer import write_struct, write_struct_uvari
     from dliswriter.utils.internal.internal_enums import RepresentationCode as RepC
-    write_struct.cache_clear()
+    import dliswriter.utils.internal.struct_writer as _sw
+    for _f in vars(_sw).values():
+        if hasattr(_f, 'cache_clear'):
+            _f.cache_clear()
     ob = p.get('obligation', '')
     a = p['args']
     if 'fixed_int' in ob:
